@@ -7,7 +7,7 @@ EXTENDS Naturals, Sequences, TLC
 CONSTANTS CapA, ElemVals
 FILLER == 0
 AIdx == 0 .. (CapA - 1)
-ARInit == [sa |-> [i \in AIdx |-> FILLER], da |-> <<>>]
+ARInit == [sa |-> [i \in AIdx |-> FILLER], da |-> <<>>, db |-> <<>>]
 SASet(a, i, v) == [a EXCEPT !.sa[i] = v]
 SAFill(a, v) == [a EXCEPT !.sa = [i \in AIdx |-> v]]
 SAClear(a) == SAFill(a, FILLER)
@@ -15,18 +15,33 @@ SAEmpty(a) == \A i \in AIdx : a.sa[i] = FILLER
 SAIter(a) == [i \in 1 .. CapA |-> a.sa[i - 1]]
 DAEmplace(a, v) == [a EXCEPT !.da = Append(@, v)]          \* precondition Len < CapA (asserted in the code)
 DAClear(a) == [a EXCEPT !.da = <<>>]
-VARIABLES a, lastop
+DBEmplace(a, v) == [a EXCEPT !.db = Append(@, v)]          \* the second array, the right-hand side of  da += db
+DBClear(a) == [a EXCEPT !.db = <<>>]
+DAAppend(a) == [a EXCEPT !.da = @ \o a.db]                 \* operator += (array): precondition Len(da) + Len(db) <= CapA
+VARIABLES a, lastop, before                               \* before: the state before the last operation (history)
 Ops == {[op |-> "sset", i |-> i, v |-> v] : i \in AIdx, v \in ElemVals} \cup {[op |-> "sfill", i |-> 0, v |-> v] : v \in ElemVals}
        \cup {[op |-> "sclear", i |-> 0, v |-> 0], [op |-> "dclear", i |-> 0, v |-> 0]} \cup {[op |-> "demplace", i |-> 0, v |-> v] : v \in ElemVals}
-Enabled(x, o) == o.op = "demplace" => Len(x.da) < CapA
+       \cup {[op |-> "dpush", i |-> 0, v |-> v] : v \in ElemVals} \cup {[op |-> "bemplace", i |-> 0, v |-> v] : v \in ElemVals}
+       \cup {[op |-> "bclear", i |-> 0, v |-> 0], [op |-> "dappend", i |-> 0, v |-> 0]}
+Enabled(x, o) == /\ o.op \in {"demplace", "dpush"} => Len(x.da) < CapA
+                 /\ o.op = "bemplace" => Len(x.db) < CapA
+                 /\ o.op = "dappend" => Len(x.da) + Len(x.db) <= CapA
 Apply(x, o) == CASE o.op = "sset" -> SASet(x, o.i, o.v) [] o.op = "sfill" -> SAFill(x, o.v) [] o.op = "sclear" -> SAClear(x)
-                 [] o.op = "demplace" -> DAEmplace(x, o.v) [] o.op = "dclear" -> DAClear(x)
-Init == a = ARInit /\ lastop = [op |-> "init", i |-> 0, v |-> 0]
-Next == \E o \in Ops : Enabled(a, o) /\ a' = Apply(a, o) /\ lastop' = o
-InvBounded == Len(a.da) <= CapA
+                 [] o.op \in {"demplace", "dpush"} -> DAEmplace(x, o.v) [] o.op = "dclear" -> DAClear(x)
+                 [] o.op = "bemplace" -> DBEmplace(x, o.v) [] o.op = "bclear" -> DBClear(x) [] o.op = "dappend" -> DAAppend(x)
+Init == a = ARInit /\ lastop = [op |-> "init", i |-> 0, v |-> 0] /\ before = ARInit
+Next == \E o \in Ops : Enabled(a, o) /\ a' = Apply(a, o) /\ lastop' = o /\ before' = a
+InvBounded == Len(a.da) <= CapA /\ Len(a.db) <= CapA
 InvLastStored == lastop.op = "sset" => a.sa[lastop.i] = lastop.v
 InvFill == lastop.op = "sfill" => \A i \in AIdx : a.sa[i] = lastop.v
 InvClear == lastop.op = "sclear" => SAEmpty(a)
-InvOrder == lastop.op = "demplace" => a.da[Len(a.da)] = lastop.v
+InvOrder == lastop.op \in {"demplace", "dpush"} => a.da = Append(before.da, lastop.v)
+InvAppend == lastop.op = "dappend" => /\ Len(a.da) = Len(before.da) + Len(before.db)
+                                      /\ \A i \in 1 .. Len(before.da) : a.da[i] = before.da[i]
+                                      /\ \A i \in 1 .. Len(before.db) : a.da[Len(before.da) + i] = before.db[i]
+                                      /\ a.db = before.db /\ a.sa = before.sa
+InvIndependent == /\ lastop.op \in {"sset", "sfill", "sclear"} => a.da = before.da /\ a.db = before.db
+                  /\ lastop.op \in {"demplace", "dpush", "dclear"} => a.sa = before.sa /\ a.db = before.db
+                  /\ lastop.op \in {"bemplace", "bclear"} => a.sa = before.sa /\ a.da = before.da
 StateView == a
 =============================================================================
